@@ -140,7 +140,7 @@ func (g *c07Gen) genState() {
 	rng := g.rng
 	c := g.c
 	c.D = uint32(pick64(rng, 32, 32, 32, 0, 5, 19200))
-	c.T = uint32(pick64(rng, uint64(rng.Intn(100)), uint64(rng.Intn(3000)), uint64(c.D)+uint64(rng.Intn(10)), uint64(rng.U64()>>34)))
+	c.T = uint32(pick64(rng, uint64(rng.Intn(100)), uint64(rng.Intn(3000)), uint64(c.D)+uint64(rng.Intn(10)), uint64(c.D)+100+uint64(rng.Intn(1000)), uint64(c.D)+100+uint64(rng.Intn(1000)), uint64(rng.U64()>>34)))
 	c.Self = uint32(pick64(rng, uint64(rng.Intn(300)), minSvc+uint64(rng.Intn(1000)), rng.U64()>>32))
 	used := map[uint32]bool{c.Self: true}
 	other := func() uint32 {
@@ -152,6 +152,15 @@ func (g *c07Gen) genState() {
 		}
 	}
 	g.prov = map[uint32][]byte{}
+	// a preimage that is available now (one slot in the past), so that lookup / historical_lookup find values
+	addAvailable := func(a *Acct) {
+		if rng.Chance(3, 5) {
+			blob := rng.Bytes(1 + rng.Intn(40))
+			hh := Blake2b(blob)
+			a.Look = append(a.Look, LookE{H: hh, Z: uint32(len(blob)), Slots: []uint32{uint32(rng.Intn(int(c.T) + 1))}})
+			a.Pre = append(a.Pre, PreE{H: hh, Blob: blob})
+		}
+	}
 	addSolicited := func(a *Acct) {
 		if rng.Chance(1, 2) {
 			blob := rng.Bytes(1 + rng.Intn(24))
@@ -162,6 +171,7 @@ func (g *c07Gen) genState() {
 	self := Acct{ID: c.Self, Code: randHash(rng), G: uint64(rng.Intn(50)), M: uint64(rng.Intn(50)), Created: uint32(rng.Intn(100)), LastAcc: uint32(rng.Intn(100)), Parent: uint32(rng.Intn(1000))}
 	genStorage(rng, &self, true)
 	genLookups(rng, &self, c.T, c.D, true)
+	addAvailable(&self)
 	addSolicited(&self)
 	genGratis(rng, &self)
 	c.Accts = append(c.Accts, self)
@@ -182,6 +192,7 @@ func (g *c07Gen) genState() {
 		} else {
 			genStorage(rng, &a, false)
 			genLookups(rng, &a, c.T, c.D, false)
+			addAvailable(&a)
 			addSolicited(&a)
 			genGratis(rng, &a)
 		}
@@ -203,6 +214,29 @@ func (g *c07Gen) genState() {
 				c.Accts = append(c.Accts, Acct{ID: id, Code: randHash(rng), Parent: 1})
 			}
 		}
+	}
+	// dictionaries have unique keys
+	for i := range c.Accts {
+		a := &c.Accts[i]
+		seenL := map[string]bool{}
+		var look []LookE
+		for _, l := range a.Look {
+			k := fmt.Sprintf("%x/%d", l.H, l.Z)
+			if !seenL[k] {
+				seenL[k] = true
+				look = append(look, l)
+			}
+		}
+		a.Look = look
+		seenP := map[[32]byte]bool{}
+		var pre []PreE
+		for _, p := range a.Pre {
+			if !seenP[p.H] {
+				seenP[p.H] = true
+				pre = append(pre, p)
+			}
+		}
+		a.Pre = pre
 	}
 	// balances: every account holds its threshold plus some slack (the caller must: Gray Paper invariant a_b >= a_t)
 	for i := range c.Accts {
@@ -596,7 +630,7 @@ func (g *c07Gen) fillCall(id uint64) {
 }
 
 // oracles, computed by running the implementation's selection code on the state of the case
-func (g *c07Gen) oracles() {
+func (g *c07Gen) oracles() *c07Machine {
 	c := g.c
 	m := newC07Machine(c)
 	c.Fetch, c.FetchSome = m.fetchOracle()
@@ -606,6 +640,14 @@ func (g *c07Gen) oracles() {
 	if c.Kind == "ref" || c.Kind == "dref" {
 		c.Hist = m.histOracle()
 	}
+	return m
+}
+
+// stat runs the finished case once on the implementation to record which outcome it reaches
+func (g *c07Gen) stat(label string) {
+	m := newC07Machine(g.c)
+	out := h.Guard(func() string { exit, _ := m.exec(); return m.outcome(exit) })
+	g.st.Inc(label + "-" + out)
 }
 
 func (g *c07Gen) finishFetch(id uint64) {
@@ -706,7 +748,7 @@ func GenC07(rng *h.Rng, tier string, emit func(string)) {
 	st := h.Stats{}
 	scale := 1
 	if tier == "thorough" {
-		scale = 25
+		scale = 10
 	}
 	// (1) every call of the accumulate table, direct
 	for i := 0; i < 9000*scale; i++ {
@@ -718,6 +760,7 @@ func GenC07(rng *h.Rng, tier string, emit func(string)) {
 		g.finishFetch(id)
 		emit(g.c.Line())
 		st.Inc(fmt.Sprintf("acc-call-%d", id))
+		g.stat(fmt.Sprintf("acc-call-%d", id))
 	}
 	// (2) the refine table: gas, fetch, historical_lookup, export, log
 	refCalls := []uint64{0, 1, 6, 6, 6, 7, 7, 7, 100}
@@ -730,6 +773,7 @@ func GenC07(rng *h.Rng, tier string, emit func(string)) {
 		g.finishFetch(id)
 		emit(g.c.Line())
 		st.Inc(fmt.Sprintf("ref-call-%d", id))
+		g.stat(fmt.Sprintf("ref-call-%d", id))
 	}
 	// (3) identifiers without an entry, direct through the table lookup of each invocation kind
 	for i := 0; i < 1200*scale; i++ {
@@ -748,6 +792,7 @@ func GenC07(rng *h.Rng, tier string, emit func(string)) {
 		g.oracles()
 		emit(g.c.Line())
 		st.Inc("unknown-direct-" + kind)
+		g.stat("unknown-direct-" + kind)
 	}
 	// (4) through Host.HostCall: "ecalli imm; trap" for every identifier class
 	for i := 0; i < 2000*scale; i++ {
@@ -775,14 +820,15 @@ func GenC07(rng *h.Rng, tier string, emit func(string)) {
 		g.oracles()
 		g.finishFetch(id)
 		emit(g.c.Line())
+		cls := "dispatch-small"
 		switch {
 		case id > 1<<63:
-			st.Inc("dispatch-sign-extended")
+			cls = "dispatch-sign-extended"
 		case id > 255:
-			st.Inc("dispatch-above-255")
-		default:
-			st.Inc("dispatch-small")
+			cls = "dispatch-above-255"
 		}
+		st.Inc(cls)
+		g.stat(cls)
 	}
 	h.EmitStats(emit, st)
 }
